@@ -41,70 +41,6 @@ def check(run: Run) -> None:
     ]:
         run.rule(rid, text)
     w = World(run.src)
-    f = Fn(w, CONV, "convert_to", inline=True)
-    run.require(f.params[:2] == ["value", "target_unit"], "convert_to parameters changed")
-    rets = f.cfg.returns()
-    run.require(bool(rets), "convert_to has no return")
-
-    def atom(e):
-        d = dotted(e)
-        if d in ("value.scale_factor", "target_unit.scale_factor"):
-            return d
-        return None
-
-    for r in rets:
-        run.ob("U1", f"return:{norm(r.ast, 60)}")
-        # inline single-definition locals
-        expr = r.ast.value
-        expr = _inline(f, r, expr)
-        m = monomial(expr, atom) if expr is not None else None
-        want = {"value.scale_factor": Fraction(1), "target_unit.scale_factor": Fraction(-1)}
-        if m is None or {k: v for k, v in m.items() if k != "#"} != want or m.get("#", Fraction(1)) != 1:
-            run.violate("U1", f"{f.qual}:ratio", f.mod, r.ast,
-                        f"convert_to returns `{norm(r.ast.value, 70)}`; the number n with n*unit = quantity is value.scale_factor / target_unit.scale_factor",
-                        monomial={k: str(v) for k, v in (m or {}).items()})
-        run.ob("U2", f"return:{norm(r.ast, 60)}")
-        good = []
-        for n, c in f.calls(AED):
-            if len(c.args) >= 4:
-                s0, s3 = f.slice(n, c.args[0]), f.slice(n, c.args[3])
-                if "value" in s0.params and "target_unit" not in s0.params and "target_unit" in s3.params and "value" not in s3.params and "dimension" in s3.attr_names:
-                    good.append(n)
-        if not f.cfg.dominated_by(r, lambda y: y in good):
-            run.violate("U2", f"{f.qual}:gate", f.mod, r.ast, "convert_to can return without assert_equivalent_dimension(value, ..., target_unit.dimension): conversion between inequivalent dimensions is answered")
-    # the two re-wrappers must not change the dimension/value: Quantity(x) only
-    for n, c in f.calls(QTY):
-        run.ob("U1", f"wrap:{norm(c, 40)}")
-        if len(c.args) != 1 or c.keywords or not isinstance(c.args[0], ast.Name):
-            run.violate("U1", f"{f.qual}:wrap:{norm(c, 50)}", f.mod, c, f"operand re-wrapped as `{norm(c, 50)}` (must be Quantity(<operand>) unchanged)")
-        else:
-            tg = n.ast.targets[0].id if isinstance(n.ast, ast.Assign) and isinstance(n.ast.targets[0], ast.Name) else None
-            if tg != c.args[0].id:
-                run.violate("U1", f"{f.qual}:wrap-cross:{norm(n.ast, 50)}", f.mod, c, f"`{norm(n.ast, 50)}` replaces one operand by the other")
-    run.sample({"function": f.qual, "returns": [norm(r.ast, 80) for r in rets]})
-
-    # ---- U3
-    g = Fn(w, CONV, "convert_to_si", inline=True)
-    for r in g.cfg.returns():
-        run.ob("U3", "convert_to_si")
-        v = r.ast.value
-        ok = isinstance(v, ast.Call) and g.callee(r, v) == CONV + ".convert_to" and len(v.args) == 2
-        if ok:
-            s0, s1 = g.slice(r, v.args[0]), g.slice(r, v.args[1])
-            tgt_calls = [c for c in s1.call_nodes if g.callee(node_of(g.cfg, c) or r, c) == DIMS + ".dimension_to_si_unit"]
-            ok = s0.params == {"value"} and len(tgt_calls) == 1 and len(tgt_calls[0].args) == 1 and dotted(tgt_calls[0].args[0]) == "value.dimension" \
-                and not any(isinstance(x, ast.BinOp) for e in s1.exprs for x in ast.walk(e))
-        if not ok:
-            run.violate("U3", f"{g.qual}:target", g.mod, r.ast, "convert_to_si does not return convert_to(value, dimension_to_si_unit(value.dimension))")
-    g2 = Fn(w, CONV, "convert_to_float", inline=True)
-    for r in g2.cfg.returns():
-        run.ob("U3", "convert_to_float")
-        v = r.ast.value
-        inner = v.args[0] if isinstance(v, ast.Call) and dotted(v.func) == "float" and len(v.args) == 1 else None
-        if not (isinstance(inner, ast.Call) and g2.callee(r, inner) == CONV + ".convert_to" and len(inner.args) == 2 and dotted(inner.args[0]) == "value"
-                and (dotted(inner.args[1]) == "S.One" or (isinstance(inner.args[1], ast.Constant) and inner.args[1].value == 1))):
-            run.violate("U3", f"{g2.qual}:target", g2.mod, r.ast, "convert_to_float does not return float(convert_to(value, 1))")
-
     # ---- U4
     dm = run.src.need(DIMS)
     table = None
@@ -175,6 +111,7 @@ def check(run: Run) -> None:
 
     # ---- U5 / U6 by evaluation
     _u7_purity(run)
+    _u123(run)
     _u5(run)
     _u6(run)
     _u8_prefixes(run)
@@ -325,6 +262,130 @@ def _u5(run: Run) -> None:
         run.violate("U5", f"{CEL}:from_kelvin_quantity:dimension", cm, cm.tree,
                     "from_kelvin_quantity converts its argument without checking that it is a temperature (SymPy's convert_to plus subs(kelvin, 1) strips the unit whatever "
                     "its exponent): 300 K**2 or 300/K come back as 26.85 degrees Celsius")
+
+
+
+def _u123(run: Run) -> None:
+    """convert_to / convert_to_si / convert_to_float EVALUATED on quantity and non-quantity operands: the value is scale(value) / scale(target) of the operands
+    (wrapped by Quantity(x) unchanged where they are no quantities), assert_equivalent_dimension(value, ..., target.dimension) has been called on exactly those two"""
+    from ..alg import T as _T, var as _var, num as _num, op as _op, app as _app, normalize as _norm
+    from ..pyreader import PyReader, Raised
+    cvm = run.src.need(CONV)
+    for name in ("convert_to", "convert_to_si", "convert_to_float"):
+        run.require(any(isinstance(x, ast.FunctionDef) and x.name == name for x in cvm.tree.body), f"{name} not found in convert.py")
+
+    class Q:
+
+        def __init__(self, tag, dim=None):
+            self.tag, self.dim = tag, dim or f"dim({tag})"
+
+        def __repr__(self):
+            return f"<{self.tag}>"
+
+    class D:
+
+        def __init__(self, tag):
+            self.tag = tag
+
+        def __eq__(self, o):
+            return isinstance(o, D) and o.tag == self.tag
+
+        def __hash__(self):
+            return hash(self.tag)
+
+    def tag_of(v):
+        return v.tag if isinstance(v, Q) else repr(_norm(v) if isinstance(v, _T) else v)
+
+    class R(PyReader):
+
+        def __init__(self):
+            super().__init__(cvm.tree, "convert.py", depth_limit=8)
+            self.asserted: list = []
+
+        def is_instance(self, v, names, n):
+            if isinstance(v, Q):
+                return "SymQuantity" in names or "Quantity" in names
+            if isinstance(v, (_T, int)):
+                return False if set(names) <= {"SymQuantity", "Quantity", "Prefix"} else super().is_instance(v, names, n)
+            return super().is_instance(v, names, n)
+
+        def hook_attr(self, base, attr, n):
+            if isinstance(base, Q) and attr == "scale_factor":
+                return _var(f"sf({base.tag})")
+            if isinstance(base, Q) and attr == "dimension":
+                return D(base.dim)
+            if isinstance(base, D) and attr == "name":
+                return f"name({base.tag})"
+            return NotImplemented
+
+        def hook_call(self, n, env, fns):
+            name = (dotted(n.func) or "").split(".")[-1]
+            if name == "isinstance" and len(n.args) == 2 and "isinstance" not in env:
+                return self.is_instance(self.ev(n.args[0], env, fns), self.class_names(n.args[1]), n)
+            if name == "Quantity" and isinstance(n.func, ast.Name) and name not in self.functions and name not in env:
+                args = [self.ev(a, env, fns) for a in n.args]
+                kw_ = {k_.arg: self.ev(k_.value, env, fns) for k_ in n.keywords if k_.arg}
+                extra = "".join(f";{k_}={v_!r}" for k_, v_ in sorted(kw_.items())) + "".join(f";{tag_of(a)}" for a in args[1:])
+                return Q(f"wrap({tag_of(args[0]) if args else ''}{extra})")
+            if name == "assert_equivalent_dimension" and name not in self.functions:
+                args = [self.ev(a, env, fns) for a in n.args]
+                kw_ = {k_.arg: self.ev(k_.value, env, fns) for k_ in n.keywords if k_.arg}
+                self.asserted.append((args[0] if args else kw_.get("arg"), args[3] if len(args) > 3 else kw_.get("expected_unit")))
+                return None
+            if name == "dimension_to_si_unit" and name not in self.functions and len(n.args) == 1:
+                d = self.ev(n.args[0], env, fns)
+                if not isinstance(d, D):
+                    self.fail(n, "dimension_to_si_unit of something that is not a quantity's dimension")
+                return _var(f"si_unit({d.tag})")  # a product of units: an expression, no quantity
+            if name == "float" and len(n.args) == 1 and "float" not in env:
+                return _app("float", self.ev(n.args[0], env, fns))
+            return NotImplemented
+
+    def ratio(a, b):
+        return _op("div", _var(f"sf({a})"), _var(f"sf({b})"))
+
+    def same_(x, y):
+        try:
+            return isinstance(x, (_T, int)) and _norm(x).eq(_norm(y))
+        except (AnalysisError, ZeroDivisionError):
+            return repr(x) == repr(y)
+
+    qa, qb, x, y = Q("a"), Q("b"), _var("x"), _var("y")
+    table = [("convert_to", "quantity, quantity", [qa, qb], "a", "b", None),
+             ("convert_to", "number, quantity", [x, qb], "wrap(x)", "b", None),
+             ("convert_to", "quantity, expression", [qa, y], "a", "wrap(y)", None),
+             ("convert_to", "expression, expression", [x, y], "wrap(x)", "wrap(y)", None),
+             ("convert_to_si", "quantity", [qa], "a", "wrap(si_unit(dim(a)))", None),
+             ("convert_to_si", "expression", [x], "wrap(x)", "wrap(si_unit(dim(wrap(x))))", None),
+             ("convert_to_float", "quantity", [qa], "a", "wrap(1)", "float"),
+             ("convert_to_float", "number", [x], "wrap(x)", "wrap(1)", "float")]
+    # a second call on the same module state, with OTHER quantities of the same two dimensions: the assertion is per call (it also looks at the value: zero, NaN)
+    table.append(("convert_to", "quantity, quantity - after a call with the same dimensions", [Q("a2", "dim(a)"), Q("b2", "dim(b)")], "a2", "b2", None))
+    dims = {"a2": "dim(a)", "b2": "dim(b)"}
+    for fname, label, args, va, tb, outer in table:
+        rid = "U1" if fname == "convert_to" else "U3"
+        run.ob(rid, f"{fname}({label}):value")
+        run.ob("U2", f"{fname}({label}):dimension-asserted")
+        rd = R()
+        try:
+            if "after a call" in label:
+                rd.call(fname, [qa, qb])
+                rd.asserted.clear()
+            got = rd.call(fname, list(args))
+        except Raised as r_:
+            run.violate(rid, f"{CONV}:{fname}:raises", cvm, cvm.tree, f"{fname}({label}) raises {r_.exc} before any dimension has been compared")
+            continue
+        want = ratio(va, tb)
+        inner = got.args[0] if outer and isinstance(got, _T) and got.op == "app" and got.val == outer and len(got.args) == 1 else (None if outer else got)
+        if inner is None or not same_(inner, want):
+            run.violate(rid, f"{CONV}:{fname}:{'ratio' if fname == 'convert_to' else 'target'}", cvm, cvm.tree,
+                        f"{fname}({label}) evaluates to {got!r}; the number n with n*unit = quantity is " + (f"{outer}(" if outer else "") + f"sf({va}) / sf({tb})" + (")" if outer else "")
+                        + " (sf = scale factor; wrap(x) = Quantity(x), the operand wrapped unchanged; si_unit = dimension_to_si_unit(value.dimension))")
+        if not any(isinstance(a0, Q) and a0.tag == va and a3 == D(dims.get(tb, f"dim({tb})")) for a0, a3 in rd.asserted):
+            run.violate("U2", f"{CONV}:{fname}:gate", cvm, cvm.tree,
+                        f"{fname}({label}) returns without assert_equivalent_dimension(value, ..., target_unit.dimension) on its two operands "
+                        f"(asserted: {[(tag_of(a0) if a0 is not None else None, getattr(a3, 'tag', a3)) for a0, a3 in rd.asserted]}): conversion between inequivalent dimensions is answered")
+    run.sample({"function": CONV + ".convert_to", "cases": [f"{f_}({l_})" for f_, l_, *_ in table]})
 
 
 def _u6(run: Run) -> None:
